@@ -390,6 +390,15 @@ func (b *SimBucket) Put(name string, data []byte, by string) {
 	b.record(nil, BucketOp{Op: "store", Name: name, Size: len(data), Applied: true, Task: by})
 }
 
+// Remove deletes an object as the driver (a peer's cleaner outside the fleet).
+func (b *SimBucket) Remove(name, by string) {
+	if o, ok := b.objs[name]; ok {
+		b.tombs[name] = tomb{data: o.data, storedAt: o.storedAt, deletedAt: b.sim.Now()}
+		delete(b.objs, name)
+		b.record(nil, BucketOp{Op: "delete", Name: name, Applied: true, Task: by})
+	}
+}
+
 // Names returns the sorted names of all objects.
 func (b *SimBucket) Names() []string {
 	var names []string
